@@ -19,6 +19,9 @@ EXTRA = {  # seed -> other checks worth running
     "C01-8": ["C05"], "C01-9": ["C15", "C02"], "C02-8": ["C04", "C01"], "C02-9": ["C09", "C03"], "C03-8": ["C01"], "C03-9": ["C11", "C10"], "C04-8": ["C09", "C07"], "C04-9": ["C03"],
     "C05-9": ["C16"], "C06-9": ["C02", "C01"], "C07-9": ["C09"], "C09-8": ["C08"], "C10-9": ["C14"], "C11-8": ["C04"], "C11-9": ["C04"], "C13-8": ["C06"],
     "C15-8": ["C01"], "C15-9": ["C06"], "C16-8": ["C05", "C12"], "C16-9": ["C05", "C01"], "C17-8": ["C03", "C02"], "C20-9": ["C04", "C10"],
+    "C01-10": ["C05", "C16"], "C01-11": ["C06"], "C02-10": ["C10"], "C02-11": ["C17", "C03"], "C03-11": ["C04"], "C04-10": ["C03"], "C04-11": ["C11"],
+    "C05-10": ["C16"], "C06-10": ["C10"], "C09-10": ["C03"], "C10-11": ["C03"], "C11-10": ["C08"], "C11-11": ["C04"], "C15-11": ["C01"], "C16-10": ["C05"], "C16-11": ["C05"],
+    "C17-10": ["C03"], "C17-11": ["C03"], "C20-10": ["C04", "C11"], "C20-11": ["C04", "C03"],
     "D-builder-selection": ["C12"], "D-specconstop-panic": ["C04", "C03", "C20"], "D-specconstop-quantifier": ["C03"], "D-disas-constant": ["C04", "C20"],
 }
 only = sys.argv[1:]
